@@ -551,11 +551,12 @@ pub fn decode_frustum<T: Fl>(w: &[u64], t: &mut Tally, variant: &'static str) ->
                             "interior_probe(x,y,depth)": format!("{:?}", probes[14]), "words": hexwords(&w[..FRUSTUM_WORDS])}));
         }
     }
-    // reference tangent (double-double Taylor series for f64 cases, cross-checked against std here)
+    // reference tangent (double-double Taylor series for f64 cases), cross-checked against std: std is within 1 ulp = 2u of the
+    // true value, so this self-check of the harness records at most 0.25
     let half = T::S::of(0.5) * fov.s();
     let (rs, rc) = half.sin_cos();
     let (ss, sc) = (0.5 * fov.f()).sin_cos();
-    t.ratio("reference/sin_cos-vs-std", ((rs.f() - ss).abs() / ss.abs()).max((rc.f() - sc).abs() / sc.abs()) / (4.0 * U64));
+    t.ratio("reference/sin_cos-vs-std", ((rs.f() - ss).abs() / ss.abs()).max((rc.f() - sc).abs() / sc.abs()) / (8.0 * U64));
     Some(Frustum { fov, aspect, near, far, tn: rs / rc, probes })
 }
 
